@@ -715,10 +715,79 @@ def exhaustive(maxlen, depth, full_depth, visit):
                 stack.append((im2, orc2, ends2, evs2, per2))
 
 
+def _inline_ack_case(d, form):
+    """one injected reliable packet in direction d whose ack (form: 'packetack' | 'appended') is delivered from inside the
+    transport's send_packet; returns None or (clause, class, detail)"""
+    im = Impl(10000, 3000)
+    E = im.E
+    state = {"busy": False, "resent": 0}
+    orig_send = im.transport.send_packet
+
+    def send_packet(packet):
+        orig_send(packet)
+        try:
+            m = E["de"].deserialize(packet.data)
+        except Exception:
+            return
+        if int(m.send_flags) & int(E["PacketFlags"].RESENT):
+            state["resent"] += 1
+        if m.reliable and not state["busy"] and m.name != "PacketAck":
+            state["busy"] = True
+            try:
+                back = "I" if d == "O" else "O"
+                if form == "packetack":
+                    a = im._build([back, "900", "00", "", "A%d" % m.packet_id])
+                else:
+                    a = im._build([back, "900", "00", str(m.packet_id), "C"])
+                im.c.collect_acks(a)
+            finally:
+                state["busy"] = False
+    im.transport.send_packet = send_packet
+    try:
+        im.apply("I:%s:1:C" % d)
+        left = list(im.c.unacked_reliable)
+        if left:
+            return ("the completion signal of an injected reliable packet fires exactly when it is acknowledged - also when the "
+                    "acknowledgement arrives before send() has returned", "inline-ack-not-counted", [k[1] for k in left])
+        for _ in range(3):
+            im.apply("T:3000")
+        if state["resent"]:
+            return ("an acknowledged injected packet is never retransmitted", "inline-ack-then-retransmitted", state["resent"])
+    except Exception as ex:   # noqa
+        return ("no exception escapes send/collect_acks", "inline-ack-raised-" + type(ex).__name__, str(ex)[:100])
+    return None
+
+
+def suite_inline_acks(ctx):
+    """the far side's acknowledgement of an injected reliable packet may arrive while send() for that very packet is still on the
+    stack (an in-process or loopback transport): it counts like any other ack - the completion signal fires, nothing is
+    retransmitted.  Impl-level oracle on the real ProxiedCircuit."""
+    res = CorrResult(suite="acks for injected packets delivered synchronously from inside the transport's send (impl-level oracle)",
+                     rule="a transport that answers every injected RELIABLE packet at once, from inside send_packet, with the peer's ack "
+                          "(PacketAck body or appended ack) in both directions; then ticks past the resend interval: no entry stays "
+                          "unacked, nothing is retransmitted")
+    n = 0
+    seen = set()
+    for d in ("O", "I"):
+        for form in ("packetack", "appended"):
+            n += 1
+            bad = _inline_ack_case(d, form)
+            if bad and bad[1] not in seen:
+                seen.add(bad[1])
+                res.impl_violations.append({"clause": bad[0], "class": bad[1], "direction": d, "ack_form": form, "detail": bad[2],
+                                            "kind": "inline-acks"})
+    res.evaluations = n
+    res.distinct_nontrivial = n
+    return res
+
+
 def correspond(ctx):
     logging.disable(logging.CRITICAL)
     try:
-        return _correspond(ctx)
+        out = _correspond(ctx)
+        out = list(out) if isinstance(out, (list, tuple)) else [out]
+        out.append(suite_inline_acks(ctx))
+        return out
     finally:
         logging.disable(logging.NOTSET)
 
@@ -882,6 +951,9 @@ def search(ctx, hints):
 def replay(ctx, case):
     logging.disable(logging.CRITICAL)
     try:
+        if case.get("kind") == "inline-acks":
+            bad = _inline_ack_case(case["direction"], case["ack_form"])
+            return (bad is not None), ({"clause": bad[0], "class": bad[1], "detail": bad[2]} if bad else "inline acks are counted")
         v, _, _ = check_trace(case["maxlen"], case.get("every", 3000), case["events"])
         return (v is not None), (v or "all C05 clauses hold on this trace")
     finally:
